@@ -25,7 +25,7 @@ import (
 
 func TestMain(m *testing.M) { common.Main(m) }
 
-var fileKinds = []string{"flip", "flip", "set", "hdrflip", "frameflip", "frameflip", "lenedit", "lenedit", "typeedit", "zero", "trunc", "trunc", "splice", "dupframe", "indexedit", "indexedit", "hdrswap", "garbage", "remove", "strayfile"}
+var fileKinds = []string{"flip", "flip", "set", "hdrflip", "frameflip", "frameflip", "lenedit", "lenedit", "typeedit", "hdrword", "hdrword", "tailword", "zero", "trunc", "trunc", "splice", "dupframe", "indexedit", "indexedit", "hdrswap", "garbage", "remove", "strayfile"}
 var metaKinds = []string{"dupbase", "unsealmid", "sealtail", "zerobase", "indexstart", "minmax", "maxhuge", "sizelimit", "swap", "drop", "nextid", "codec", "idedit", "empty", "textflip", "texttrunc", "textset", "textgarbage"}
 
 func genBase(t *rapid.T) Base {
